@@ -26,16 +26,16 @@ PROP = {
   "saml2_tophat.sigver:SecurityContext.correctly_signed_message[name_id_mapping_response]"
  ],
  "bounded": [
-  "sig_table"
+  "sig_table",
+  "wrap_table"
  ],
  "level": "other",
- "explanation": "Contract-level part of C01: at every acceptance site a relied-upon element's signature is verified by the tool for that element's own ID (XS_OK over --node-id) under an issuer key; the tool's argv is pinned by the E-XMLSEC axiom. The structural own-signature atom A4 (single Reference naming the element's ID) is a named obligation that fails on this tree (known finding); atoms A2/A3/A5/A6 are document-level facts no Python code establishes and are not decided.",
+ "explanation": "Contract-level part of C01: at every acceptance site a relied-upon element's signature is verified by the tool for that element's own ID (XS_OK over --node-id) under an issuer key; the tool's argv is pinned by the E-XMLSEC axiom. Atom A4 (the element's Signature has a single Reference and it names the element's own ID) is a discharged postcondition of _check_signature since fix 3c3a4c39 and is carried (REF_OK) by check_signature, correctly_signed_response, the 13 correctly_signed_message variants and AuthnResponse._assertion. Atoms A2 / A3 / A5 (exactly one element has the ID, it has exactly one ds:Signature child, and that child is the first ds:Signature the tool meets under the element) are facts about the document handed to the tool: since fix 808af441 _check_signature establishes them by calling signature_is_enveloped on that very document, which is a discharged postcondition (ENVELOPED) carried by the same callers; the helper itself (an ElementTree walk) has an ASSUMED contract, cross-checked on every run by the BOUNDED wrap_table against an independent implementation. wrap_table (bounded, stand-in tool, never counted as proved) also feeds 71 kinds of signature-wrapping rearrangements of validly signed responses to the real SP entry point under every signature-requirement setting: whatever is accepted must carry the genuine identity.",
  "not_decided": [
-  "A2 exactly one direct ds:Signature child",
-  "A3 it is the first ds:Signature in document order under the element",
-  "A5 ID unique in the document",
-  "A6 transforms restricted",
-  "content of what XS_OK means for the real xmlsec1 (E-XMLSEC is an assumption)"
+  "A6 transforms restricted (left to the tool: --enabled-reference-uris empty,same-doc is pinned in the argv, the transform list is not inspected)",
+  "signature_is_enveloped body (assumed contract + bounded cross-check)",
+  "content of what XS_OK means for the real xmlsec1 (E-XMLSEC is an assumption; the stand-in implements first-signature search and reference-driven digesting)",
+  "encrypted assertions in the wrapping table (wrap_table rearranges plain assertions; sig_table covers the signature states of encrypted ones)"
  ],
  "id": "C01"
 }
